@@ -98,7 +98,7 @@ def _io_dtype(tr, e):
 
 
 def _io_expr(tr, e, want):
-    if tr.spec.module != "AlgoImgIo":
+    if tr.spec.module not in ("AlgoImgIo", "AlgoImgIo2"):
         return None
     K0 = sorted(tr.num)[0] if len(tr.num) == 1 else None
     # (I11) ints where a float is expected
